@@ -11,11 +11,10 @@ ID = "C13"
 MODULE = "PotasscoVerif.Props.C13"
 THEOREMS = ["PotasscoVerif.C13.C13_cmdstring", "PotasscoVerif.C13.C13_cmdstring_parse", "PotasscoVerif.C13.C13_terminator", "PotasscoVerif.C13.C13_long_eq",
             "PotasscoVerif.C13.C13_long_sep", "PotasscoVerif.C13.C13_long_implicit", "PotasscoVerif.C13.C13_short_attached", "PotasscoVerif.C13.C13_short_sep",
-            "PotasscoVerif.C13.C13_flag_group", "PotasscoVerif.C13.C13_argv", "PotasscoVerif.C13.C13_argv_loop"]
-EXTRA_MODULES = ["PotasscoVerif.Props.C13b"]
-PARTIAL = {"C13_cfg / negation / unknown long options / groups ending in a value option": "C13_argv covers whole lists spelled as --name=value, --name value, --name (implicit), -avalue, -a value, "
-           "grouped flags, positional tokens, unknown short options and the '--' tail; --no-name, unknown long options, flag groups that end in a value-taking alias, argc/argv rewriting and config files "
-           "are decided by correspondence and the intended-list oracle"}
+            "PotasscoVerif.C13.C13_flag_group", "PotasscoVerif.C13.C13_long_neg", "PotasscoVerif.C13.C13_long_unknown", "PotasscoVerif.C13.handleShort_group_then",
+            "PotasscoVerif.C13.C13_argv", "PotasscoVerif.C13.C13_argv_loop", "PotasscoVerif.C13.C13_cfg"]
+EXTRA_MODULES = ["PotasscoVerif.Props.C13b", "PotasscoVerif.Props.C13c"]
+PARTIAL = {"argc/argv rewriting": "C13_argv states what is left as a token list; that the C++ entry point rewrites argc/argv to exactly that list is decided by the correspondence and the intended-list oracle"}
 BSIZES = (4096,)
 RULE = ("contexts of 2..8 options (required-argument / implicit-value / flag kinds, optional one-character alias, negatable flags, names sharing prefixes); intended lists of 0..8 "
         "occurrences spelled as --name=value, --name value, unique prefix, -a value, -avalue, grouped flags (also ending in an alias that takes a value: -hvL3, -hvL 3), --no-name, implicit forms, positional and unknown tokens, '--' tail; "
@@ -25,11 +24,13 @@ TRUSTED = ["std::isspace in the C locale (blank, \\t..\\r)"]
 ASSUMPTIONS = ["option names are made of letters and '-', do not start with 'no-'; values contain no NUL"]
 TECHNIQUE = "Lean 4 theorems on the parser model (whole argument lists in mixed spellings parse to the intended pairs; tokenizer inverse of quoting; terminator) + differential correspondence with the real parsers + intended-list oracle"
 LEVEL_TEXT = ("C13_cmdstring(_parse): for EVERY token list (any bytes but NUL: blanks, quotes, backslashes, empty tokens) tokenizing the quoted command string gives back the tokens, so "
-              "string parsing equals argv parsing; C13_terminator: after '--' everything is left in order; spelling lemmas: --name=value, --name value, --name (implicit), -avalue, "
+              "string parsing equals argv parsing; C13_terminator: after '--' everything is left in order; spelling lemmas: --name=value, --name value, --name (implicit), --no-name, -avalue, "
               "-a value and grouped flags each add exactly the intended (option, value) pair and consume exactly their tokens, given that the key resolves to the option (C14). "
-              "C13_argv (Props/C13b.lean): the inductive relation `Sp` generates every way of writing a list of intended pairs, positional tokens, unknown short options and a '--' tail in any mixture of these spellings; "
+              "C13_argv (Props/C13b.lean): the inductive relation `Sp` generates every way of writing a list of intended pairs, positional tokens, unknown short and long options and a '--' tail in any mixture of the spellings "
+              "--name=value, --name value, unique prefix, --name (flag/implicit), --no-name (negatable), -avalue, -a value, grouped flags, grouped flags ending in a value option (-abcV, -abc V); "
               "for EVERY such token list of any length the parser returns exactly the intended pairs in order and leaves exactly the intended tokens in order. "
-              "Negation, unknown long options, argc/argv rewriting and config files are decided by model == real parsers and by the intended-list oracle on the implementation.")
+              "C13_cfg (Props/C13c.lean): a config file of `name = value` lines (any blanks around name, '=' and value; full name or unique prefix; empty values; values containing '='), continuation lines, '#' comment "
+              "lines and blank lines yields exactly the intended pairs in order. argc/argv rewriting is decided by model == real parsers and by the intended-list oracle on the implementation.")
 LEVEL_NOTE = ("Partial proof + correspondence (~6k quick / 150k thorough cases, each run as argv and as quoted command string, plus config files). Trusted: Lean kernel+axioms, "
               "std::isspace C locale, harness, generator/oracle in props/c13.py.")
 
